@@ -26,6 +26,9 @@ def call(eng, node, st):
             return b(eng, node, st)
         if name in eng.reg.classes and name not in st.env:
             return construct(eng, name, node, st)
+    if isinstance(f, ast.Attribute) and isinstance(f.value, ast.Name) and f.value.id == "itertools" and f.attr == "count" and "itertools" not in st.env:
+        a = [eng.eval(x, st) for x in node.args]
+        return VCount(a[0] if a else z3.IntVal(0), a[1] if len(a) > 1 else z3.IntVal(1))
     if isinstance(f, ast.Attribute):
         # method on a value?
         recv_node = f.value
